@@ -51,8 +51,10 @@ impl Vector<f64> {
     pub fn norm_inf(&self) -> f64 {
         let mut result = self.vec[0].abs();
         for i in 1..self.size() {
-            if result < self.vec[i].abs() {
-                result = self.vec[i].abs();
+            let entry = self.vec[i].abs();
+            // a NaN entry must not be skipped ( NaN compares false with everything )
+            if result < entry || entry.is_nan() {
+                result = entry;
             }
         }
         result
